@@ -38,6 +38,16 @@ WITNESS = {
     ("ArrayDecl2#3", "types"): ("xta", 1, "int a[int[0,1]][struct{int b[2];}];\nprocess P(){ state A; init A; } system P;",
                                 "type_array_of_type",
                                 "a nested array declarator resets the static counter `types`; the outer type_array_of_type(types--) runs with types = 0 and indexes typeFragments[-1]"),
+    ("SelectList#1", "currentEdge"): ("xta", 1, "process P(){ state L0; init L0; trans X -> L0 { select i : int[0,1]; }; } system P;", "proc_select",
+                                      "proc_edge_begin fails on an undeclared source location and creates no edge; proc_select dereferences the null currentEdge (the other label callbacks are guarded)"),
+    ("SelectList#2", "currentEdge"): ("xta", 1, "process P(){ state L0; init L0; trans X -> L0 { select i : int[0,1], j : int[0,1]; }; } system P;", "proc_select",
+                                      "proc_edge_begin fails on an undeclared source location and creates no edge; proc_select dereferences the null currentEdge"),
+    ("InstanceLineExpression#1", "currentInstanceLine"): ("part:17", 1, "I", "instance_name",
+                                      "parse_XTA(.., S_INSTANCE_LINE) on a builder without a current instance line: instance_name dereferences the null currentInstanceLine"),
+    ("InstanceLineExpression#2", "currentInstanceLine"): ("pre:17", 1, "process I(int a){ state A; init A; }\nJ = I(1);\nsystem J;\x02I(1)", "instance_name_end",
+                                      "parse_XTA(.., S_INSTANCE_LINE) `I(1)` with a matching template but no current instance line: instance_name_end -> instance_name dereferences the null currentInstanceLine"),
+    ("Uppaal#29", "currentTemplate"): ("part:17", 1, "I", "instance_name",
+                                      "parse_XTA(.., S_INSTANCE_LINE) on a builder with no current template / instance line (instance_name dereferences both; the instance line is hit first)"),
     ("StrategyAssignment#1", "properties"): ("tiga", 1, "strategy s = control: A[] undeclared_variable", "strategy_declaration",
                                              "PropertyBuilder::property() returns early on a type error without pushing a PropInfo; TigaPropertyBuilder::strategy_declaration takes &properties.back() of an empty list"),
 }
@@ -60,6 +70,17 @@ XTA_SNIPPETS = [
     "process V(){ state A; init A; trans A u-> A { }; } system V;",
     "const int N = 2; typedef int[0,N-1] id; process W(const id i){ state A; init A; } system W;",
     "int x; process X(){ state A; init A; } system X; query { E<> x > 0 } query { A[] not deadlock }",
+    "int x; int x; typedef int T; typedef int T; void f(){} void f(){} int g(int a, int a){ return a; } const int c; int u = undefined_id + 1; "
+    "struct { int a; } r; int w = r.nofield; int v = x.a; clock k; int bad[k]; const string s2 = \"a\"; string s3;",
+    "dynamic T(int i); process T(int i){ int v; state A; init A; } process U(){ int n; state A; init A; trans A -> A { guard forall (p : T) (p.v > 0); }, "
+    "A -> A { guard exists (p : T) (p.A); }, A -> A { assign n = sum (p : T) p.v; }, A -> A { assign foreach (p : T) p.v; }, "
+    "A -> A { guard forall (q : Nope) (q.v > 0); }, A -> A { guard exists (p : T) (p.nofield); }; } system U;",
+    "int a; void s(){ ++a; --a; a++; a--; a += 1; a <<= 2; a = a <? 3; a = a >? 3; a = (a imply a) ? 1 : 0; } int q = a' ; "
+    "process Y(){ state A; init A; trans A -> A { guard Y.A && deadlock; }; } system Y; progress { a : a + 1; a; } "
+    "gantt { G : for (i : int[0,1], j : int[0,1]) true -> i, a > 0 -> 2; }",
+    "int a; void t(int b){ switch (b) { case 1: b++; default: b--; } }",
+    "int a; void t2(){ while (true) { break; } }",
+    "int a; void t3(){ while (true) { continue; } }",
 ]
 OLD_SNIPPETS = [
     "const N 3; int x; clock c; chan ch; process P(const k; int p){ state A { c <= 3 , x < 2 }, B; commit B; init A; trans A -> B { guard c >= 1, x == 0; sync ch!; assign x := 1, c := 0; }, B -> A { }; } Q := P(1, x); system Q;",
@@ -80,7 +101,16 @@ PART_SNIPPETS = {
     "S_EXPRESSION": ["1 + 2 * (3 - x)", "a ? b : c", "f(1, 2)[3].z", "forall (i : int[0,2]) a[i] > 0"],
     "S_EXPRESSION_LIST": ["1, 2, x"],
     "S_PROPERTY": ["A[] x > 0", "E<> P.A", "x --> y", "Pr[<=10](<> x > 1)", "simulate [<=10] { x, y }", "sup: x", "control: A[] x > 0",
-                   "strategy s = control: A[] x > 0", "E[<=10; 20](max: x)", "Pr[<=10](<> x) >= 0.5", "minE(x)[<=10] : <> y"],
+                   "strategy s = control: A[] x > 0", "E[<=10; 20](max: x)", "Pr[<=10](<> x) >= 0.5", "minE(x)[<=10] : <> y",
+                   "Pr[<=10](<> x) >= Pr[<=10](<> y)", "Pr[<=10;5](<> x) >= Pr[<=10](<> y)", "simulate [<=10] { x } : x > 2",
+                   "simulate [<=10; 3] { x, y } : 5 : x > 2", "saveStrategy(\"f\", s)", "loadStrategy {x} -> {y} (\"f\")",
+                   "maxPr[<=10] : <> x", "scenario: Obs", "control_t*(1,2): A<> x", "control_t*(1): A<> x", "control_t*: A<> x",
+                   "E<> control: A[] x", "{x} control: A[] y", "Pr (x U[1,2] y)", "Pr (x R[1,2] y)", "Pr (<>[1,2] x)", "Pr ([][1,2] x)",
+                   "Pr (()x)", "E[<=10](min: x)", "E[<=10](foo: x)", "A[] x.location", "inf{x > 1}: y", "bounds: x, y",
+                   "A[] (x && A<> y)", "A[x U y]", "A[x W y]", "E[] x", "control: A[] x subject s", "x --> y subject s",
+                   "Pr[#<=10](<> x)", "Pr[x<=10](<> x)", "Pr[<=10]([] x) <= 0.1", "Pr[<=10](x U y)",
+                   "A[] not deadlock", "E<> numOf(P) > 0", "E<> foreach (p : P) p.A", "sat: Obs", "Pr ((X x))",
+                   "maxE(x)[<=10] : <> y under s imitate s", "A[] forall (p : P) (p.A)", "E<> exists (p : P) (p.B)", "E<> sum (p : P) x > 1"],
     "S_XTA_PROCESS": ["process P(){ state A; init A; }"],
     "S_PROBABILITY": ["3"],
     "S_INSTANCE_LINE": ["I", "I(1, 2)"],
@@ -136,6 +166,13 @@ def trace_ops(ctx):
                 ops.append((mode, nx, s, "part"))
                 for m in mutations(s, rng, 30 if not ctx.thorough else 200):
                     ops.append((mode, nx, m, "part-mut"))
+    model = ("int x, y; clock c; bool b; chan ch; process P(){ state A, B; init A; trans A -> B { guard x > 0; }; } "
+             "process Obs(){ state A; init A; } system P, Obs;")
+    for s in PART_SNIPPETS["S_PROPERTY"] + ["strategy s = control: A[] undeclared_variable", "strategy s = control: A[] x > 0\nA<> y > 0 under s",
+                                            "strategy t = minE(x)[<=10] : <> y > 1", "E<> x > 0 under nosuch"]:
+        ops.append(("tiga", 1, model + "\x02" + s, "tiga"))
+        for m in mutations(s, rng, 30 if not ctx.thorough else 200):
+            ops.append(("tiga", 1, model + "\x02" + m, "tiga-mut"))
     return ops
 
 
@@ -162,10 +199,15 @@ def variant_of(name, arity, args, spec_variants):
     return variant, n
 
 
-def run_traces(ctx, b, cbs, cov):
+def trace_exe(b):
     incdir, _ = core.regen_kinds()
     core.write_if_changed(os.path.join(incdir, "c01_trace_gen.inc"), grammar_trace.inc_text(core.REPO))
-    exe = core.build_harness(b, "c01_trace", ["c01_trace.cpp"])
+    core.write_if_changed(os.path.join(incdir, "c01_trace_fwd.inc"), grammar_trace.fwd_text(core.REPO))
+    return core.build_harness(b, "c01_trace", ["c01_trace.cpp"])
+
+
+def run_traces(ctx, b, cbs, cov):
+    exe = trace_exe(b)
     ops = trace_ops(ctx)
     chunks = [ops[i::core.NCPU] for i in range(core.NCPU)]
     from concurrent.futures import ThreadPoolExecutor
@@ -183,7 +225,7 @@ def run_traces(ctx, b, cbs, cov):
     spec_variants = set(cbs)
     lines, meta = [], []      # driver lines, (op, record)
     died, ends = [], {}
-    seen, thrown_seen, unknown = {}, {}, {}
+    seen, thrown_seen, unknown, escaped = {}, {}, {}, {}
     ncalls = 0
     for chunk, rc, out, err in results:
         if rc != 0:
@@ -202,7 +244,7 @@ def run_traces(ctx, b, cbs, cov):
                     name, arity, args = hw[1], int(hw[2]), hw[3:]
                     last_call = name
                     tw = tail.split()
-                    if len(tw) != 9:
+                    if len(tw) != 19:
                         continue      # truncated: the callback never returned
                     ncalls += 1
                     if (name, arity) in overloaded_long:
@@ -214,11 +256,36 @@ def run_traces(ctx, b, cbs, cov):
                     variant, n = va
                     outcome = int(tw[0])
                     if outcome == 2:
+                        escaped[variant] = escaped.get(variant, 0) + 1
                         continue      # a non-TypeException escaped: the parse is over
                     seen[variant] = seen.get(variant, 0) + 1
                     if outcome == 1:
                         thrown_seen[variant] = thrown_seen.get(variant, 0) + 1
                     lines.append("T %s %d %d %s" % (variant, n, outcome, " ".join(tw[1:])))
+                    meta.append((op, l))
+                elif l.startswith("Q "):
+                    head, _, tail = l.partition(" | ")
+                    hw = head.split()
+                    name, arity, args = hw[1], int(hw[2]), hw[3:]
+                    last_call = name
+                    tw = tail.split()
+                    if len(tw) != 5:
+                        continue
+                    ncalls += 1
+                    if (name, arity) in overloaded_long:
+                        continue
+                    va = variant_of(name, arity, args, spec_variants)
+                    if va is None:
+                        unknown[name] = unknown.get(name, 0) + 1
+                        continue
+                    variant, n = va
+                    if int(tw[0]) == 2:
+                        escaped[variant] = escaped.get(variant, 0) + 1
+                        continue
+                    seen[variant] = seen.get(variant, 0) + 1
+                    if int(tw[0]) == 1:
+                        thrown_seen[variant] = thrown_seen.get(variant, 0) + 1
+                    lines.append("Q %s %d %s" % (variant, n, " ".join(tw)))
                     meta.append((op, l))
                 elif l.startswith("END"):
                     ends[l.split()[1].split(":")[0].split("=")[0]] = ends.get(l.split()[1].split(":")[0].split("=")[0], 0) + 1
@@ -233,10 +300,12 @@ def run_traces(ctx, b, cbs, cov):
     mism = [(meta[i], res[i]) for i in range(len(lines)) if i >= len(res) or res[i] != "ok"]
     cov["traces_validated_against_impl"] = len(lines)
     cov["correspondence_cases"] = len(lines)
-    cov["correspondence_disagreements"] = len(mism)
+    cov["correspondence_disagreements"] = len([m for m in mism if "needs" not in m[1]])
+    cov["traced_calls_below_model_need"] = len([m for m in mism if "needs" in m[1]])
     cov["callback_variants_exercised"] = "%d of %d" % (len(seen), len([c for c in cbs if not c.startswith("ps_")]))
-    cov["callback_variants_never_traced"] = sorted(c for c in cbs if not c.startswith("ps_") and c not in seen)
+    cov["callback_variants_never_traced"] = sorted(c for c in cbs if not c.startswith("ps_") and c not in seen and c not in escaped)
     cov["callback_variants_thrown"] = dict(sorted(thrown_seen.items()))
+    cov["callback_variants_left_by_other_exception"] = dict(sorted(escaped.items()))
     cov["callbacks_outside_grammar_skipped"] = dict(sorted(unknown.items()))
     cov["trace_op_results"] = ends
     fam = {}
@@ -272,7 +341,7 @@ def need_tie(ctx, eff, cbs, cov):
             if sc["F"] > fmax:
                 bad.append((variant, "F", sc["F"], fmax))
             continue
-        if sc["F"] > fneed and not (row[0]["needN"] and sc["symbolicF"]):
+        if sc["F"] > fneed and not row[0]["needN"]:
             bad.append((variant, "F", sc["F"], fneed))
         if sc["T"] > tneed:
             bad.append((variant, "T", sc["T"], tneed))
@@ -283,15 +352,14 @@ def need_tie(ctx, eff, cbs, cov):
 def confirm_witness(ctx, b, key, exe_trace, stream_mod):
     mode, nx, text, last_cb, why = WITNESS[key]
     if mode == "tiga":
-        if stream_mod is None:
-            return None, "part B harness not available"
-        obj = {"entry": "parseProperty", "newxta": True, "builder": "tiga", "part": "S_PROPERTY",
-               "input_b64": base64.b64encode(text.encode()).decode(), "input_text": text}
-        try:
-            rc = stream_mod.replay_one(ctx, b, obj)
-        except Exception as ex:  # noqa
-            return None, "replay failed: %r" % ex
-        return (rc == 1), "stream harness replay rc=%s" % rc
+        # the real (final) TigaPropertyBuilder behind a forwarding tracer: the callback must run with an empty `properties`
+        model = "int x; process P(){ state A; init A; } system P;"
+        inp = "tiga 1 %s\n" % base64.b64encode((model + "\x02" + text).encode()).decode()
+        rc, out, err, dt = core.run_exe(exe_trace, [], stdin_text=inp, timeout=120)
+        ql = [l for l in out.split("\n") if l.startswith("Q " + last_cb + " ")]
+        ok = bool(ql) and ql[-1].partition(" | ")[2].split()[2:3] == ["0"]
+        return ok, {"record": ql[-1:] , "end": [l for l in out.split("\n") if l.startswith("END")][:1],
+                    "note": "std::list::back() on an empty list is undefined behaviour; no sanitizer reports it"}
     inp = "%s %d %s\n" % (mode, nx, base64.b64encode(text.encode()).decode())
     rc, out, err, dt = core.run_exe(exe_trace, [], stdin_text=inp, timeout=120)
     calls = [l for l in out.split("\n") if l.startswith("C ")]
@@ -302,9 +370,14 @@ def confirm_witness(ctx, b, key, exe_trace, stream_mod):
 
 def run(ctx):
     cov = ctx.coverage
+    for f in os.listdir(os.path.join(core.VERIF, "replays")):     # replays of earlier runs of this check are stale
+        if f.startswith("C01-"):
+            os.remove(os.path.join(core.VERIF, "replays", f))
     cov["claim"] = "partial: stack-discipline theorem (proof) + sanitizer stream (testing)"
     b = core.build_repo("asan")
     try:
+        if os.environ.get("C01_NO_STREAM"):
+            raise ImportError("disabled by C01_NO_STREAM (development only)")
         import checks.c01_stream as stream_mod
     except Exception as ex:  # noqa
         stream_mod = None
@@ -354,9 +427,7 @@ def run(ctx):
             if l.startswith("BADROW"):
                 ctx.proof_broken("effect_wf", l, "n/a")
     cov["exceptions"] = ["%s/%s" % (k, s) for k, s, _ in exc]
-    incdir, _ = core.regen_kinds()
-    core.write_if_changed(os.path.join(incdir, "c01_trace_gen.inc"), grammar_trace.inc_text(core.REPO))
-    exe_trace = core.build_harness(b, "c01_trace", ["c01_trace.cpp"])
+    exe_trace = trace_exe(b)
     unexplained = []
     for k, s, l in exc:
         key = "stack:%s:%s" % (k, s)
@@ -381,12 +452,12 @@ def run(ctx):
         mism, died, rc2, err2 = run_traces(ctx, b, cbs, cov)
         if rc2 != 0:
             ctx.proof_broken("drv_c01", err2[-2000:], "driver died")
-    known_died_cbs = {"if_end", "type_array_of_type", "proc_select"}
+    scan_cls = {k: v.get("cls", "DocumentBuilder") for k, v in grammar.source_need_scan(core.REPO).items() if not k.startswith("@")}
     # crashes seen while tracing: key them like the stream does (top callback)
     for op, last_call, l in died:
         key = {"if_end": "stack:IfCondition#2:fragments", "type_array_of_type": "stack:ArrayDecl2#3:types"}.get(last_call)
         if key is None:
-            key = "crash:%s" % last_call
+            key = "crash:%s::%s" % (scan_cls.get(last_call, "DocumentBuilder"), last_call)
         ctx.finding(key, "real library died inside callback %s while tracing (%s)" % (last_call, l.strip()),
                     {"mode": op[0], "newxta": op[1], "input_text": op[2], "family": op[3]})
     cov["trace_ops_died"] = len(died)
@@ -405,12 +476,21 @@ def run(ctx):
         what = "effect table disagrees with the real library on %d of %d traced calls; first: %s on %r => %s" % (
             len(mism), cov.get("correspondence_cases", 0), rec, op[2][:200], res)
         needs = [m for m in mism if "needs" in m[1]]
-        if needs:
+        others = [m for m in mism if "needs" not in m[1]]
+        seen_keys = set()
+        for (op, rec), res in needs:
             # the real library executed a callback with fewer entries than the model requires: a concrete failing input
-            (op, rec), res = needs[0]
-            ctx.finding("underflow:" + rec.split()[1], "callback ran below its operands: %s (%s)" % (rec, res),
+            cb = rec.split()[1]
+            key = "stack:StrategyAssignment#1:properties" if (cb == "strategy_declaration" and "properties" in res) else "underflow:" + cb
+            if key in seen_keys:
+                continue
+            seen_keys.add(key)
+            ctx.finding(key, "callback ran below its operands on the real library: %s (%s)" % (rec, res),
                         {"mode": op[0], "newxta": op[1], "input_text": op[2]})
-        else:
+        if others:
+            (op, rec), res = others[0]
+            what = "effect table disagrees with the real library on %d of %d traced calls; first: %s on %r => %s" % (
+                len(others), cov.get("correspondence_cases", 0), rec, op[2][:200], res)
             ctx.proof_broken("correspondence:effect-table", what, "%d traced calls" % cov.get("correspondence_cases", 0))
     for k, s, l in unexplained:
         key = "stack:%s:%s" % (k, s)
@@ -452,9 +532,7 @@ def replay(ctx, path):
     rp = r.get("replay", {})
     b = core.build_repo("asan")
     if rp.get("kind") == "grammar-exception" or "mode" in rp:
-        incdir, _ = core.regen_kinds()
-        core.write_if_changed(os.path.join(incdir, "c01_trace_gen.inc"), grammar_trace.inc_text(core.REPO))
-        exe = core.build_harness(b, "c01_trace", ["c01_trace.cpp"])
+        exe = trace_exe(b)
         text = rp.get("witness") or rp.get("input_text") or ""
         mode = rp.get("mode", "xta")
         if mode == "tiga":
